@@ -53,6 +53,10 @@ def plan(tier, seed):
                             continue
                         cfgs.append(dict(kind="red", rate=8, mode=mode, qlimit=q, minth=mn, maxth=mx, wf=wf, maxp=mp,
                                          N=n, gaps=["S", 1, 2], sizes=[1, 2], order=0))
+    for wf in (0.5, 1.5):
+        cfgs.append(dict(kind="red", rate=8, mode="pkts", qlimit=4, minth=1, maxth=3, wf=wf, maxp=0.5, N=n, gaps=["S", 1, 2], sizes=[1, 2], order=0))
+    cfgs.append(dict(kind="port", rate=8, mode="bytes", qlimit=4, N=n - 1, gaps=["S", 1, 2], sizes=[1, 2, 3], order=0, mailbox=1))
+    cfgs.append(dict(kind="port", rate=0, mode="pkts", qlimit=2, N=n - 1, gaps=["S", 1, 2], sizes=[1, 2], order=0, mailbox=1))
     return {"cfgs": cfgs, "budget": None,
             "bound": "Port: N<=%d, rates {0,8,16}, qlimit None/bytes{0,2,3,4,6}/packets{0,1,2,3}, monitors in/excl; "
                      "RED: N<=%d, thresholds (1,2),(1,3), qlimit {3,4}, weight {0,1}, max_p {.5,1}, both modes, 4 draws per decision (p/2, (1+p)/2, 15p/16, 17p/16)" % (n, n)}
@@ -93,7 +97,19 @@ def execute(ch, cfg):
     else:
         port = mk()
         env.process(net.driver(ch, nmax, items, Front(), long_gap=40))
-    port.out = net.sink()
+    if cfg.get("mailbox"):
+        from onl.sim import Store
+        box = Store(env)
+        tap = net.sink()
+
+        def consumer():
+            while True:
+                p = yield box.get()
+                tap.put(p)
+        env.process(consumer())
+        port.out = box
+    else:
+        port.out = net.sink()
     real_put = port.put
     state = {"avg": 0.0, "draw": None, "p": None}
 
@@ -146,6 +162,8 @@ def execute(ch, cfg):
         env.process(mon.run())
 
     def occ(where):
+        if cfg.get("mailbox"):
+            return      # departures are logged by the consumer a few kernel steps late
         if rec.occ_bad is None:
             held = sum(a.size for k, a in enumerate(net.arrs) if k < len(rec.dec) and rec.dec[k] == 0 and a.dep is None)
             if port.byte_size != held:
@@ -201,6 +219,8 @@ def execute(ch, cfg):
                 want = set(w >= q - 1 for w in waiting)
                 if any(w in (q - 1, q - 2) for w in waiting):
                     near = True
+            if cfg.get("mailbox") and any(x.dep is not None and x.dep.t == a.t for x in accepted):
+                want = {True, False}      # behind a mailbox the departure is logged late: coincidences are not judged here
             if bool(dropped) not in want:
                 res.bad("C09.drop", "%s:%s" % (tag, "refused-within-limit" if dropped else "accepted-beyond-limit"),
                         "arrival %d size %d at t=%r: qlimit=%r held/waiting=%s" % (k, a.size, a.t, q, [(x.i, x.size) for x in und]))
